@@ -176,19 +176,20 @@ fn main() -> miette::Result<()> {
 
             let out_file_name =
                 dest.unwrap_or(name.with_extension("lc3").file_name().unwrap().into());
-            let mut file = File::create(&out_file_name).unwrap();
+
+            // Emit everything before touching the destination: a statement which cannot be
+            // emitted must not leave a partial file behind
+            let mut bytes: Vec<u8> = Vec::with_capacity(2 * (air.len() + 1));
 
             // Deal with .orig
-            if let Some(orig) = air.orig() {
-                let _ = file.write(&orig.to_be_bytes());
-            } else {
-                let _ = file.write(&0x3000u16.to_be_bytes());
-            }
+            bytes.extend_from_slice(&air.orig().unwrap_or(0x3000).to_be_bytes());
 
             // Write lines
             for stmt in &air {
-                let _ = file.write(&stmt.emit()?.to_be_bytes());
+                bytes.extend_from_slice(&stmt.emit()?.to_be_bytes());
             }
+
+            write_object_file(&out_file_name, &bytes)?;
 
             message(Green, "Finished", "emit binary");
             file_message(Green, "Saved", &out_file_name);
@@ -333,6 +334,32 @@ fn run(name: &PathBuf, debugger_opts: Option<debugger::Options>, minimal: bool) 
 
     file_message(MsgColor::Green, "Completed", &name);
     Ok(())
+}
+
+/// Write `bytes` to `path` completely, or leave `path` as it was.
+fn write_object_file(path: &Path, bytes: &[u8]) -> Result<()> {
+    // Anything but a regular file (device, pipe, symlink, ...) has no previous contents to
+    // preserve, and must not be replaced by a regular file: write to it directly
+    let is_regular_or_absent = fs::symlink_metadata(path)
+        .map(|meta| meta.is_file())
+        .unwrap_or(true);
+    if !is_regular_or_absent {
+        let mut file = File::create(path).into_diagnostic()?;
+        return file.write_all(bytes).into_diagnostic();
+    }
+
+    // Write a temporary file next to the destination, then move it over the destination
+    let mut tmp_name = path.as_os_str().to_owned();
+    tmp_name.push(".tmp");
+    let tmp_path = PathBuf::from(tmp_name);
+
+    let result = File::create(&tmp_path)
+        .and_then(|mut file| file.write_all(bytes))
+        .and_then(|_| fs::rename(&tmp_path, path));
+    if result.is_err() {
+        let _ = fs::remove_file(&tmp_path);
+    }
+    result.into_diagnostic()
 }
 
 /// Return assembly intermediate representation of source file for further processing
